@@ -38,6 +38,9 @@ EXPLANATION += " Added: (R6) an argument that a dump modifies carries state into
 # --- metadata added for batch 8
 EXPLANATION += ' R3 also reports a module-level name bound to a one-shot iterator (`zip`, `map`, a generator expression): the first call that iterates it uses it up. R5 knows `attrs.validators.disabled()`.'
 # --- end metadata batch 8
+# --- metadata added for batch 9
+EXPLANATION += ' R5: redirection of the standard streams (contextlib.redirect_stdout / redirect_stderr), numpy.errstate / printoptions and removals from os.environ are process-global setters.'
+# --- end metadata batch 9
 TRUSTED = ["CPython ast parser", "module-level code runs once at import", "warnings.catch_warnings restores the filter state on exit"]
 
 AMBIENT = {
